@@ -258,6 +258,15 @@ func (f *StreamForwarder) forwardAcks(wg *sync.WaitGroup) {
 		if err == io.EOF {
 			f.logger.Debug("targetStreamServer.Recv encountered EOF", tag.Error(err))
 			metrics.AdminServiceStreamTerminatedCount.WithLabelValues(append(f.metricLabelValues, "target")...).Inc()
+			// The initiator has ended its side cleanly. What it sent before that is only queued towards the source:
+			// shutting down now would cancel the source-side stream right behind those messages and the source would
+			// lose them. Pass the half-close on and give the source a moment to take them and end the stream itself
+			// (forwardReplicationMessages then shuts the forwarder down); after that, shut down regardless.
+			_ = f.sourceStreamClient.CloseSend()
+			select {
+			case <-f.shutdownChan.Channel():
+			case <-time.After(5 * time.Second):
+			}
 			return
 		}
 
